@@ -370,8 +370,13 @@ def run(seed, tier, budget_s):
 
     for i in range(0, len(plans), 2000):
         chunk = plans[i:i + 2000]
-        for p, r in zip(chunk, core.map_plans(MOD, chunk, chunk=8)):
+        _res = core.map_plans(MOD, chunk, chunk=8)
+        for p, r in zip(chunk, _res):
             batch.add(p, r)
+        if i == 0:
+            step_ = max(1, len(chunk) // 12)
+            core.cross_validate(MOD, batch, list(zip(chunk, _res))[::step_],
+                                12 if quick else 60)
         if batch.elapsed() > budget_s:
             batch.probes['budget_cut_after_plans'] = i + len(chunk)
             complete_sweeps = 0 if i + len(chunk) < len(plans) else complete_sweeps
